@@ -77,6 +77,24 @@ structure Fetch where
   extras : List Extra := []   -- every other RRset of the answer section, answer order
 deriving DecidableEq, Repr
 
+/-- an RRSIG over the root DNSKEY RRset that is cryptographically sound, with its
+validity window in seconds relative to the moment of validation (`Inception -
+now`, `Expiration - now`). -/
+structure TimedSig where
+  key : Key
+  notBefore : Int
+  notAfter : Int
+deriving DecidableEq, Repr
+
+/-- `sig.ValidityPeriod(time.Time{})` in `verifyOneSigWithWork`: inside the window,
+no margin on either side. -/
+def TimedSig.valid (t : TimedSig) : Bool := t.notBefore ≤ 0 && 0 ≤ t.notAfter
+
+/-- the keys whose RRSIG counts: the unconditionally valid ones plus the
+time-bounded ones that are inside their window. -/
+def effectiveSigners (signers : List Key) (timed : List TimedSig) : List Key :=
+  signers ++ (timed.filter (·.valid)).map (·.key)
+
 /-- every DNSKEY record of the answer section, whatever its owner:
 `ExtractRRSet(rrs, "", TypeDNSKEY)` and the `for _, rr := range resp.Answer`
 loop that builds `kskFetched` do not look at owner names. -/
